@@ -34,10 +34,14 @@ def main():
     assert rc == 0, out
     env = dict(os.environ, PYTHONPATH=f"{wt}/src")
     try:
-        for mdir in sorted(Path(args.src).glob("m*")):
-            if args.only and mdir.name != args.only:
+        if args.src == "stored":
+            mdirs = sorted((VERIF / "seeded").glob(f"{prop}-*"))
+        else:
+            mdirs = sorted(Path(args.src).glob("m*"))
+        for mdir in mdirs:
+            k = mdir.name.split("-")[-1] if args.src == "stored" else mdir.name[1:]
+            if args.only and args.only not in (mdir.name, f"m{k}", k):
                 continue
-            k = mdir.name[1:]
             patch, demo = mdir / "patch.diff", mdir / "demo.py"
             if not (patch.exists() and demo.exists()):
                 print(f"{prop}-{k}: incomplete (patch/demo missing)")
@@ -87,8 +91,9 @@ def main():
             if confirmed:
                 dest = VERIF / "seeded" / f"{prop}-{k}"
                 dest.mkdir(parents=True, exist_ok=True)
-                shutil.copy(patch, dest / "patch.diff")
-                shutil.copy(demo, dest / "demo.py")
+                if patch.resolve() != (dest / "patch.diff").resolve():
+                    shutil.copy(patch, dest / "patch.diff")
+                    shutil.copy(demo, dest / "demo.py")
                 if notes:
                     (dest / "notes.md").write_text(notes)
                 (dest / "meta.json").write_text(json.dumps(meta, indent=1))
